@@ -281,6 +281,14 @@ func genGroup(r *rand.Rand, mqGroup bool) ([]spec, []gevent) {
 		if r.Intn(3) == 0 {
 			code = mix.pick(r)
 		}
+		switch code { // the retrying adds are exercised by the single-queue classes; here a wrong bound must show as a refusal, not as a hang
+		case "w":
+			code = "a"
+		case "wc":
+			code = "ac"
+		case "wr":
+			code = "ar"
+		}
 		o := op{code: code}
 		if opHasArg(specs[qi].kind, code) {
 			id++
